@@ -452,15 +452,28 @@ def check(ctx):
                 wantcmd = want[v2]['info_cmd'] if fn is start else want[v2]['item_cmd']
                 ctx.inst('R2', fn, 'command[%s]' % ('V2' if v2 else 'V1'), first == wantcmd, 'request command %s, expected %s' % (first, wantcmd))
     # reply decoding per generation
-    ups = g.find(lambda n: isinstance(n, ast.Call) and dotted(n.func) == 'struct.unpack')
+    ups = g.find(lambda n: isinstance(n, ast.Call) and dotted(n.func) in ('struct.unpack', 'struct.unpack_from'))
+    seen_info = set()
     for n, c in ups:
         keys = g.fact_keys_at(n)
-        v2 = fact_key('self._useV2', True) in keys
-        fmt = fold_in(cb, c.args[0])
-        if fact_key('self.state == GET_TOC_INFO', True) in keys:
-            ctx.inst('R2', cb, 'info-format[%s]' % ('V2' if v2 else 'V1'), fmt == want[v2]['info_fmt'], 'info reply decoded with %r, expected %r' % (fmt, want[v2]['info_fmt']))
+        # the format may be chosen first and carried in a local: one (generation, format) pair per binding of that local
+        pairs = []
+        if isinstance(c.args[0], ast.Name) and g.reaching_defs(n, c.args[0].id):
+            for d_ in g.reaching_defs(n, c.args[0].id):
+                dv_ = g.def_value(d_, c.args[0].id) if d_.ast is not None else None
+                dk_ = g.fact_keys_at(d_) | keys
+                v2_ = True if fact_key('self._useV2', True) in dk_ else False if fact_key('self._useV2', False) in dk_ else None
+                pairs.append((v2_, fold_in(cb, dv_) if dv_ is not None else None))
         else:
-            ctx.inst('R2', cb, 'id-format[V2]', v2 and fmt == '<H', 'element index decoded with %r under V2=%s' % (fmt, v2))
+            pairs.append((fact_key('self._useV2', True) in keys, fold_in(cb, c.args[0])))
+        for v2, fmt in pairs:
+            if fact_key('self.state == GET_TOC_INFO', True) in keys:
+                ok_ = v2 is not None and fmt == want[bool(v2)]['info_fmt']
+                seen_info.add(bool(v2))
+                ctx.inst('R2', cb, 'info-format[%s]' % ('V2' if v2 else 'V1'), ok_, 'info reply decoded with %r, expected %r' % (fmt, want[bool(v2)]['info_fmt']))
+            else:
+                ctx.inst('R2', cb, 'id-format[V2]', bool(v2) and fmt == '<H', 'element index decoded with %r under V2=%s' % (fmt, v2))
+    ctx.need(seen_info == {True, False}, '_new_packet_cb: decoding of the info reply not found for both protocol generations (%s)' % sorted(seen_info))
     def branches(node, expr, depth=0):
         """[(nodes whose facts apply, expression)]: a local with several reaching plain assignments is followed into each of them"""
         if isinstance(expr, ast.Name) and depth < 3:
@@ -631,6 +644,8 @@ def check(ctx):
     toc_lookup_rules(ctx, 'R8')
     from .c11 import cache_name_rules
     cache_name_rules(ctx, 'R10')       # cache present: only a table stored under exactly the announced CRC may be adopted
+    from .c11 import cached_table_adoption_rule
+    cached_table_adoption_rule(ctx, 'R11')
     ext_fetcher_rules(ctx, 'R11')      # persistence marker: the extended-type pass (shared with C04.R10)
     session_object_rules(ctx, 'R11')   # ... on the table of this connection (shared with C04.R13)
     from .c11 import cache_codec_rules
